@@ -44,6 +44,22 @@ theorem ensureAbs_abs (p : Bytes) : startsWithSlash (ensureAbs p) = true := by
   · assumption
   · rfl
 
+/-- the decoded path of `targetURL`, in terms of the request path and the two options -/
+theorem targetURL_path (t : Target) (u : URL) :
+    (targetURL t u).path =
+      (if t.prepend ≠ [] then
+        ensureAbs (t.prepend ++ (if t.strip ≠ [] ∧ t.strip <+: u.path then ensureAbs (u.path.drop t.strip.length) else u.path))
+       else (if t.strip ≠ [] ∧ t.strip <+: u.path then ensureAbs (u.path.drop t.strip.length) else u.path)) := by
+  simp only [targetURL, rewritePath, prependStep, stripStep, hasPrefix, List.isPrefixOf_iff_prefix]
+  by_cases h1 : t.strip ≠ [] ∧ t.strip <+: u.path <;> by_cases h2 : t.prepend ≠ [] <;>
+    simp only [h1, h2, if_true, if_false, absolutise_fst, not_false_eq_true, and_self, ne_eq]
+
+/-- the query of `targetURL` -/
+theorem targetURL_query (t : Target) (u : URL) :
+    (targetURL t u).rawQuery = t.rawQuery ++ (if t.rawQuery ≠ [] ∧ u.rawQuery ≠ [] then [AMP] else []) ++ u.rawQuery := by
+  simp only [targetURL, mergeQuery]
+  by_cases h1 : t.rawQuery = [] <;> by_cases h2 : u.rawQuery = [] <;> simp [h1, h2]
+
 /-- **Path rewrite.** The upstream's (decoded) path is the client's path with the strip prefix removed — only
 when the path really begins with it — and the prepend option put in front, made absolute after each step;
 it is absolute whenever an option applied and is the client's path when no option is set. -/
